@@ -73,6 +73,7 @@ def wf_axioms(formulas):
     tys = {}
     nths = {}
     ptypes = {}
+    base_tests = []
     seen = set()
     stack = list(formulas)
     while stack:
@@ -91,6 +92,10 @@ def wf_axioms(formulas):
                     nths[i] = t
                 elif t.decl().eq(ct_ptype):
                     ptypes[i] = t
+            if t.decl().kind() == z3.Z3_OP_SEQ_CONTAINS and z3.is_app(
+                    t.arg(0)) and t.arg(0).decl().eq(ct_bases) and \
+                    t.arg(1).decl().kind() == z3.Z3_OP_SEQ_UNIT:
+                base_tests.append((t.arg(0).arg(0), t.arg(1).arg(0)))
             stack.extend(t.children())
     ax = []
     tl = list(tys.values())[:40]
@@ -127,19 +132,16 @@ def wf_axioms(formulas):
             ct_is_strlike(x) == (x == Ty.ty_Str),
             z3.Length(ct_bases(x)) <= 1)))
     # E-BUILTIN-CLASSES: a built-in scalar class has no registered user
-    # class among its bases
-    for x in tl:
-        for y in tl:
-            if x.eq(y):
-                continue
-            sx = z3.Or(*[x == getattr(Ty, nm) for nm in (
-                'ty_Str', 'ty_Int', 'ty_Float', 'ty_Bool', 'ty_Date',
-                'ty_NoneType')])
-            sy = z3.Or(*[y == getattr(Ty, nm) for nm in (
-                'ty_Str', 'ty_Int', 'ty_Float', 'ty_Bool', 'ty_Date',
-                'ty_NoneType')])
-            ax.append(z3.Implies(
-                z3.And(sx, z3.Contains(ct_bases(x), z3.Unit(y)), reg(y)), sy))
+    # class among its bases (instantiated where "y in x.__bases__" occurs)
+    for (x, y) in base_tests:
+        sx = z3.Or(*[x == getattr(Ty, nm) for nm in (
+            'ty_Str', 'ty_Int', 'ty_Float', 'ty_Bool', 'ty_Date',
+            'ty_NoneType')])
+        sy = z3.Or(*[y == getattr(Ty, nm) for nm in (
+            'ty_Str', 'ty_Int', 'ty_Float', 'ty_Bool', 'ty_Date',
+            'ty_NoneType')])
+        ax.append(z3.Implies(
+            z3.And(sx, z3.Contains(ct_bases(x), z3.Unit(y)), reg(y)), sy))
     for n in nths.values():
         sq, j = n.arg(0), n.arg(1)
         inb = z3.And(j >= 0, j < z3.Length(sq))
